@@ -10,12 +10,14 @@ import (
 	"os"
 	"path/filepath"
 	"reflect"
+	"sort"
 	"strconv"
 	"strings"
 	"time"
 
 	"github.com/spf13/cobra"
 	"github.com/spf13/pflag"
+	"github.com/spf13/viper"
 
 	"github.com/evstack/ev-node/pkg/config"
 )
@@ -34,7 +36,8 @@ type Field struct {
 // Flag is one registered command-line flag.
 type Flag struct {
 	Name    string // as registered
-	Key     string // path of the option the flag names = viper key bindFlags must bind it to (prefix "rollkit." stripped; flagAliases)
+	Key     string // path of the option the flag NAMES, by the naming rule of the property (stripKey: name minus "rollkit."; flagAliases) - declared here, not read from the code
+	Bound   string // viper key the real bindFlags binds the flag to (behavioural; only with probe=true): set only this flag, run bindFlags, ask viper which key is set
 	Kind    string // pflag value type
 	Def     string // pflag DefValue
 	Reaches []string
@@ -337,9 +340,16 @@ func Flags(probe bool) ([]Flag, error) {
 	for i := range out {
 		out[i].Reaches = []string{}
 		if out[i].Name == config.FlagRootDir {
-			continue // the harness needs it to point Load at the scratch directory
+			// the harness needs it to point Load at the scratch directory; its binding can be asked all the same
+			if out[i].Bound, err = BoundKey(out[i].Name, dir); err != nil {
+				return nil, err
+			}
+			continue
 		}
 		val := probeValue(out[i].Kind, out[i].Def)
+		if out[i].Bound, err = BoundKey(out[i].Name, val); err != nil {
+			return nil, err
+		}
 		c, err := RealLoad(dir, []string{"--" + out[i].Name + "=" + val})
 		RestoreDefaults()
 		if err != nil {
@@ -353,6 +363,28 @@ func Flags(probe bool) ([]Flag, error) {
 		}
 	}
 	return out, nil
+}
+
+// BoundKey asks the compiled code which viper key a flag is bound to: a fresh command on which only
+// this flag is given goes through the real bindFlags (config.VerifBoundKeys, build tag verif); the
+// keys viper then reports as set are the keys the flag supplies.
+func BoundKey(flag, val string) (string, error) {
+	cmd := NewCommand()
+	if err := cmd.ParseFlags([]string{"--" + flag + "=" + val}); err != nil {
+		return "", fmt.Errorf("flag-parse: %w", err)
+	}
+	v, err := config.VerifBoundKeys(cmd)
+	if err != nil {
+		return "", err
+	}
+	var keys []string
+	for _, k := range v.AllKeys() {
+		if v.IsSet(k) {
+			keys = append(keys, k)
+		}
+	}
+	sort.Strings(keys)
+	return strings.Join(keys, "|"), nil // exactly one key for a healthy binding
 }
 
 // SharedLeaves asks the compiled code which leaves of DefaultConfig a Load overwrites: one real
@@ -447,6 +479,27 @@ func RealLoad(home string, args []string) (cfg config.Config, err error) {
 		return config.Config{}, err
 	}
 	return LoadThrough(cmd)
+}
+
+// RealLoadFromViper runs the second entry point, config.LoadFromViper, the way an application that
+// owns its viper instance does: a fresh command is parsed, its flags are bound to a fresh viper
+// (BindPFlags), and that viper is handed over.
+func RealLoadFromViper(home string, args []string) (cfg config.Config, err error) {
+	defer func() {
+		if r := recover(); r != nil {
+			err = fmt.Errorf("panic: %v", r)
+		}
+	}()
+	cmd, err := ParsedCommand(home, args)
+	if err != nil {
+		return config.Config{}, err
+	}
+	v := viper.New()
+	if err := v.BindPFlags(cmd.Flags()); err != nil {
+		return config.Config{}, err
+	}
+	c, err := config.LoadFromViper(v)
+	return DeepCopy(c), err
 }
 
 // TouchedFlags lists the flags of cmd that the command line did not give (`given`: by name) and
